@@ -87,6 +87,13 @@ def m_dict(c, binp, tier):
                           ["ValueOK", "RoundTrip", "LocaleAgrees", "EmitCase"], binp=binp, workers=12, timeout=7200))
 
 
+def m_long(c, binp, tier):
+    """every container size 0..40 (variants, attributes, keywords, tfields, private tags, all together) and an ill-formed
+    character at every byte offset of a long identifier (MC_Long.tla)"""
+    c.add_model(run_model("%s-long" % c.prop, "MC_Long", dict(MaxN=40 if tier == "quick" else 48), ["Shape", "RoundTrip", "EmitCase"],
+                          binp=binp, workers=8, timeout=3600))
+
+
 def m_impl(c, binp, tier, replay=True):
     """the parser as implemented, step by step: termination (ranking function) and refinement of the abstract
     automaton are model-checked; the exact predicted outcomes are replayed to count behaviour drift (informational)"""
@@ -309,6 +316,7 @@ def C02(tier, seed):
     binp = build_harness(ALL)
     m_langid(c, binp, tier)
     m_dict(c, binp, tier)
+    m_long(c, binp, tier)
     traces(c, binp, "parse", tier)
     c.require(["li_accepted", "li_rejected"])
     return c.finish(rule="every token sequence over the 67-token boundary alphabet up to the depth bound through from_bytes/FromStr/canonicalize, verdict + error kind + all fields + text compared with ParseLI; non-trivial = accepted identifiers",
@@ -321,6 +329,7 @@ def C03(tier, seed):
     m_locale(c, binp, tier, deep=True)
     m_langid(c, binp, tier, light=True)
     m_dict(c, binp, tier)
+    m_long(c, binp, tier)
     m_impl(c, binp, tier)
     traces(c, binp, "parse", tier)
     c.require(["zone_accept", "zone_either", "zone_other", "zone_free", "zone_reject", "loc_accepted", "loc_rejected", "ext_from_bytes"])
@@ -333,6 +342,7 @@ def C04(tier, seed):
     binp = build_harness(ALL)
     m_locale(c, binp, tier, modes=("loc",))
     m_langid(c, binp, tier, light=True)
+    m_long(c, binp, tier)
     m_parts(c, binp, tier)
     m_object(c, binp, tier, edges=True, hist=False, full=True, parts=("T", "X", "Id"), grown=True)
     traces(c, binp, "parse", tier)
@@ -346,6 +356,7 @@ def C05(tier, seed):
     binp = build_harness(ALL)
     m_locale(c, binp, tier, modes=("loc", "ext"), light=(tier == "quick"))
     m_langid(c, binp, tier, light=True)
+    m_long(c, binp, tier)
     m_subtags(c, binp, tier, light=True)
     m_parts(c, binp, tier)
     m_object(c, binp, tier, edges=True, hist=True, full=True, parts=("U", "T", "X", "Id"), grown=True)
@@ -443,6 +454,7 @@ def C13(tier, seed):
     binp = build_harness(ALL)
     m_langid(c, binp, tier)
     m_dict(c, binp, tier)
+    m_long(c, binp, tier)
     m_locale(c, binp, tier, modes=("loc",))
     return c.finish(rule="every language-identifier case also through Locale (identical id, no extensions, same text, conversions both ways, AsRef); every accept-zone locale case: id = LanguageIdentifier of the text before the first singleton",
                     assumptions=ASSUME_COMMON, exhaustive=True)
@@ -488,6 +500,7 @@ def C19(tier, seed):
     c = Check("C19", tier, seed)
     binp = build_harness(ALL)
     m_langid(c, binp, tier)
+    m_long(c, binp, tier)
     return c.finish(rule="every language-identifier case as a JSON string (plain and fully \\u-escaped) through serde_json::from_str and from_value; accepted values serialised and read back; a fixed list of non-string JSON documents",
                     assumptions=ASSUME_COMMON, exhaustive=True)
 
